@@ -193,7 +193,9 @@ func cells(run *vk.Run, race bool) []cell {
 			Dirs: []string{"c2s", "s2c"}, Shapes: []string{"string", "Binary", "S2", "map-bin"}, Label: "size-boundaries"})
 		big := []int{200 << 10, 500 << 10}
 		if run.Thorough() {
-			big = append(big, 900_000, 999_000)
+			// hostile strings grow under JSON escaping and binary grows 4/3 under base64 on polling:
+			// stay clearly inside the 1e6 limit here; the exact boundary is C13's business (ASCII payloads)
+			big = append(big, 600_000, 700_000)
 		}
 		out = append(out, cell{Transports: tr, Clients: 1, Emitters: 1, PerEmitter: len(big), Sizes: big,
 			Dirs: []string{"c2s", "s2c"}, Shapes: []string{"string", "Binary"}, Label: "large"})
